@@ -91,6 +91,32 @@ func (c *vGenCfg) gen(depth int) expr.Expr {
 	}
 }
 
+// nest enumerates chains of the given depth: at every level any node kind
+// (Add, Mul, Less, MemLoad) of any width with the nested node in any child
+// position; the other children are register loads.
+func (c *vGenCfg) nest(depth int) expr.Expr {
+	if depth == 0 {
+		return expr.NewRegLoad("r0", c.widths[0])
+	}
+	w := c.width()
+	inner := c.nest(depth - 1)
+	side := func(k expr.Key) expr.Expr { return expr.NewRegLoad(k, w) }
+	switch sym.Choose(4) {
+	case 0, 1:
+		op := []expr.BinaryOp{expr.Add, expr.Mul}[sym.Choose(2)]
+		if sym.Choose(2) == 0 {
+			return expr.NewBinary(op, inner, side("r1"), w)
+		}
+		return expr.NewBinary(op, side("r1"), inner, w)
+	case 2:
+		ch := []expr.Expr{side("r1"), side("r0"), side("r1"), side("r0")}
+		ch[sym.Choose(4)] = inner
+		return expr.NewLess(ch[0], ch[1], ch[2], ch[3], w)
+	default:
+		return expr.NewMemLoad([]expr.Key{"m", "n"}[sym.Choose(2)], inner, w)
+	}
+}
+
 // ---- seeded random shapes (concrete PRNG, runs identically in the engine and natively)
 
 type vRand struct{ s uint64 }
@@ -127,6 +153,7 @@ func (c *vGenCfg) random(r *vRand, depth int) expr.Expr {
 //	family 1: constant-condition Less whose arms have other widths
 //	family 2: width gadget under Binary / Less / MemLoad address, all width orderings
 //	family 3: seeded random trees of depth <= 3
+//	family 4: every chain of depth "depth" (default 3) of Add/Mul/Less/MemLoad nodes
 func vPickTree(c *vGenCfg) expr.Expr {
 	switch sym.Param("family", 0) {
 	case 0:
@@ -159,6 +186,8 @@ func vPickTree(c *vGenCfg) expr.Expr {
 		default:
 			return expr.NewMemLoad("m", g, w)
 		}
+	case 4:
+		return c.nest(sym.Param("depth", 3))
 	default:
 		n := sym.Param("shapes", 50)
 		i := sym.Choose(n)
